@@ -24,19 +24,49 @@ async fn recv_dgram(sock: &UdpSocket, ms: u64) -> Option<(Vec<u8>, SocketAddr)> 
     match tokio::time::timeout(Duration::from_millis(ms), sock.recv_from(&mut buf)).await { Ok(Ok((n, from))) => { buf.truncate(n); Some((buf, from)) } _ => None }
 }
 
+/// Decode the next length-prefixed datagram from what the session wrote for stream 1 (up to 1.5 s).
+async fn pull_down(out: &crate::simpipe::PipeCtl, carry: &mut Vec<u8>, ustream: &mut Vec<u8>) -> Option<Vec<u8>> {
+    for _ in 0..300 {
+        carry.extend_from_slice(&out.take_record());
+        let (frames, trail) = parse_frames(carry);
+        for f in &frames { if f.cmd == 2 && f.sid == 1 { ustream.extend_from_slice(&carry[f.off + 7..f.off + 7 + f.len]); } }
+        let keep = carry.len() - trail; carry.drain(..keep);
+        if ustream.len() >= 2 { let l = ((ustream[0] as usize) << 8) | ustream[1] as usize; if ustream.len() >= 2 + l { let d: Vec<u8> = ustream[2..2 + l].to_vec(); ustream.drain(..2 + l); return Some(d); } }
+        tokio::time::sleep(Duration::from_millis(5)).await;
+    }
+    None
+}
+
 /// (i) server-side handler, scripted peer
 async fn run_handler(ev: &mut Vec<Value>, r: &mut Rng, sc: &Value, seed: u64) {
     let target = UdpSocket::bind("127.0.0.1:0").await.unwrap();
     let taddr = target.local_addr().unwrap();
     let rg = rig::server_rig(PaddingFactory::default(), true);
     let mut rx = rg.new_streams.unwrap();
-    tokio::spawn(async move { while let Some(st) = rx.recv().await { tokio::spawn(async move { let _ = anytls_rs::server::handle_udp_over_tcp(st).await; }); } });
+    // the real stream handler: destination preface (the magic name) -> UDP-over-TCP handler
+    let hs = rg.sess.clone();
+    tokio::spawn(async move { while let Some(st) = rx.recv().await { let s3 = hs.clone(); tokio::spawn(async move {
+        use anytls_rs::server::StreamHandler;
+        let _ = anytls_rs::server::TcpProxyHandler::new().handle_stream(st, s3).await; }); } });
     rg.inp.push(&frame_bytes(4, 0, b"v=2\npadding-md5=x"));
     rg.inp.push(&frame_bytes(1, 1, &[]));
-    // initial request, itself possibly cut
-    let mut init = vec![1u8, 1, 127, 0, 0, 1]; init.extend_from_slice(&taddr.port().to_be_bytes());
+    // destination preface + initial request: cut at a random position, or (partly) coalesced with the first
+    // datagram bytes in one frame (early data)
+    let magic = b"sp.v2.udp-over-tcp.arpa";
+    let mut init = vec![3u8, magic.len() as u8]; init.extend_from_slice(magic); init.extend_from_slice(&[0, 0]);
+    init.extend_from_slice(&[1u8, 1, 127, 0, 0, 1]); init.extend_from_slice(&taddr.port().to_be_bytes());
     let cut = r.range(1, init.len() as u64) as usize;
-    rg.inp.push(&frame_bytes(2, 1, &init[..cut])); if cut < init.len() { rg.inp.push(&frame_bytes(2, 1, &init[cut..])); }
+    let mut held: Vec<u8> = Vec::new();
+    match r.below(3) {
+        0 => { held = init.clone(); }
+        1 => { rg.inp.push(&frame_bytes(2, 1, &init[..cut])); held = init[cut..].to_vec(); }
+        _ => { rg.inp.push(&frame_bytes(2, 1, &init[..cut])); if cut < init.len() { rg.inp.push(&frame_bytes(2, 1, &init[cut..])); } }
+    }
+    // the down direction is decoded continuously
+    let key_dn = pgen::key(seed, 1, 1, 2);
+    let mut off_dn = 0u64;
+    let mut carry: Vec<u8> = Vec::new();
+    let mut ustream: Vec<u8> = Vec::new();
     let key_up = pgen::key(seed, 1, 1, 1);
     let mut stream: Vec<u8> = Vec::new();   // encoded, not yet delivered
     let mut bounds: Vec<usize> = Vec::new(); // abstract cell boundaries of `stream` (offsets relative to its start)
@@ -68,8 +98,19 @@ async fn run_handler(ev: &mut Vec<Value>, r: &mut Rng, sc: &Value, seed: u64) {
                 let chunk: Vec<u8> = stream.drain(..to).collect();
                 bounds = bounds.iter().skip(idx + 1).map(|b| b - to).filter(|b| *b > 0).collect();
                 if bounds.first().map(|b| *b == 0).unwrap_or(false) { bounds.remove(0); }
-                rg.inp.push(&frame_bytes(2, 1, &chunk));
+                let mut fb = std::mem::take(&mut held); fb.extend_from_slice(&chunk);
+                rg.inp.push(&frame_bytes(2, 1, &fb));
                 delivered_total += chunk.len();
+                // a datagram from the target arrives while a datagram of the other direction is only partly delivered
+                let mid_packet = complete_at.front().map(|c| *c > delivered_total).unwrap_or(false) && delivered_total > 0;
+                if mid_packet && r.chance(1, 2) { if let Some(ss) = server_sock {
+                    let len = if r.chance(1, 2) { *r.pick(&SMALL) } else { *r.pick(&BIG) };
+                    let payload = pgen::fill(key_dn, off_dn, len);
+                    ev.push(json!({"ev": "usend", "dir": "down", "len": len}));
+                    let _ = target.send_to(&payload, ss).await;
+                    if let Some(d) = pull_down(&rg.out, &mut carry, &mut ustream).await { ev.push(json!({"ev": "urecv", "dir": "down", "len": d.len(), "match": pgen::matches(key_dn, off_dn, &d), "src": true})); }
+                    off_dn += len as u64;
+                } }
                 // lock-step: wait for every datagram that is now complete
                 while complete_at.front().map(|c| *c <= delivered_total).unwrap_or(false) {
                     complete_at.pop_front();
@@ -86,34 +127,20 @@ async fn run_handler(ev: &mut Vec<Value>, r: &mut Rng, sc: &Value, seed: u64) {
         }
     }
     // flush what is still encoded
-    if !stream.is_empty() { rg.inp.push(&frame_bytes(2, 1, &stream)); }
+    if !stream.is_empty() || !held.is_empty() { let mut fb = std::mem::take(&mut held); fb.extend_from_slice(&stream); rg.inp.push(&frame_bytes(2, 1, &fb)); }
     while !pending.is_empty() {
         match recv_dgram(&target, 1500).await { Some((d, from)) => { server_sock = Some(from); let (o, _) = pending.pop_front().unwrap(); ev.push(json!({"ev": "urecv", "dir": "up", "len": d.len(), "match": pgen::matches(key_up, o, &d), "src": true})); } None => break }
     }
     // down direction: the target answers; the harness decodes the session's output
     if let Some(ss) = server_sock {
-        let key_dn = pgen::key(seed, 1, 1, 2);
-        let mut off = 0u64;
-        let mut carry: Vec<u8> = Vec::new();
-        let mut ustream: Vec<u8> = Vec::new();
-        rg.out.take_record();
         for _ in 0..r.range(1, 4) {
             let len = if r.chance(1, 2) { *r.pick(&SMALL) } else { *r.pick(&BIG) };
-            let payload = pgen::fill(key_dn, off, len);
+            let payload = pgen::fill(key_dn, off_dn, len);
             ev.push(json!({"ev": "usend", "dir": "down", "len": len}));
             let _ = target.send_to(&payload, ss).await;
             // wait until the whole datagram has come out of the session
-            let mut got = None;
-            for _ in 0..300 {
-                carry.extend_from_slice(&rg.out.take_record());
-                let (frames, trail) = parse_frames(&carry);
-                for f in &frames { if f.cmd == 2 && f.sid == 1 { ustream.extend_from_slice(&carry[f.off + 7..f.off + 7 + f.len]); } }
-                let keep = carry.len() - trail; carry.drain(..keep);
-                if ustream.len() >= 2 { let l = ((ustream[0] as usize) << 8) | ustream[1] as usize; if ustream.len() >= 2 + l { let d: Vec<u8> = ustream[2..2 + l].to_vec(); ustream.drain(..2 + l); got = Some(d); break; } }
-                tokio::time::sleep(Duration::from_millis(5)).await;
-            }
-            if let Some(d) = got { ev.push(json!({"ev": "urecv", "dir": "down", "len": d.len(), "match": pgen::matches(key_dn, off, &d), "src": true})); }
-            off += len as u64;
+            if let Some(d) = pull_down(&rg.out, &mut carry, &mut ustream).await { ev.push(json!({"ev": "urecv", "dir": "down", "len": d.len(), "match": pgen::matches(key_dn, off_dn, &d), "src": true})); }
+            off_dn += len as u64;
         }
         tokio::time::sleep(Duration::from_millis(5)).await;
         carry.extend_from_slice(&rg.out.take_record());
